@@ -42,7 +42,10 @@ def r1_wrappers(rep, facts):
     impls = de_impls(facts)
     for outer, inner, why in WRAPPERS:
         if outer not in impls or inner not in impls:
-            if outer.split('::')[0] in facts.crates and inner.split('::')[0] in facts.crates:
+            gated = (outer.startswith('toml::de::') and not facts.has_body('toml::de::from_str')) or \
+                (inner.startswith('toml_edit::') and 'toml_edit' not in facts.crates) or \
+                ('serde' not in set(facts.crates.get('toml_edit', {}).get('features', ['serde'])))
+            if not gated and outer.split('::')[0] in facts.crates and inner.split('::')[0] in facts.crates:
                 rep.incomplete(R, f'{outer}|present', f'impl Deserializer for {outer} / {inner} not found')
             continue
         for m in sorted(impls[inner]):
